@@ -70,6 +70,11 @@ pub enum Op {
     WaitNodeDown { max: u32 },
     /// Chain thread (C12): yields until the node is reachable again (or `max` scheduling points went by).
     WaitNodeUp { max: u32 },
+    /// C15: the request of `base` (Register / RegisterBadId / Add / Get / SubInfo / Ping) made through the real HTTP front
+    /// under a mutation.
+    Http { base: Box<Op>, m: crate::http::HttpMut },
+    /// GET /ping through the HTTP front.
+    Ping,
     /// Forces the node's answer to `sendrawtransaction(tx)`: 0 = unknown error code, 1 = undecodable reply.
     ForceVerdict { tx: TxRef, kind: u32 },
 }
@@ -123,6 +128,16 @@ impl Op {
             Op::ForceVerdict { .. } => "force_verdict",
             Op::WaitNodeDown { .. } => "wait_node_down",
             Op::WaitNodeUp { .. } => "wait_node_up",
+            Op::Http { base, .. } => match base.kind() {
+                "register" => "http_register",
+                "register_bad_id" => "http_register_bad_id",
+                "add" => "http_add",
+                "get" => "http_get",
+                "subinfo" => "http_subinfo",
+                "ping" => "http_ping",
+                _ => "http",
+            },
+            Op::Ping => "ping",
         }
     }
 }
